@@ -480,9 +480,11 @@ class GIRParser(object):
                 func.is_method = True
                 func.is_inline = True
                 compound.methods.append(func)
-            for i, fieldnode in enumerate(self._find_children(node, _corens('field'))):
-                field = compound.fields[i]
-                self._parse_type_array_length(compound.fields, fieldnode, field.type)
+            field_tags = (_corens('field'), _corens('record'), _corens('union'), _corens('callback'))
+            fieldnodes = [child for child in node if child.tag in field_tags]
+            for field, fieldnode in zip(compound.fields, fieldnodes):
+                if fieldnode.tag == _corens('field') and field.type is not None:
+                    self._parse_type_array_length(compound.fields, fieldnode, field.type)
             for func in self._find_children(node, _corens('function')):
                 compound.static_methods.append(
                     self._parse_function_common(func, ast.Function, compound))
